@@ -91,10 +91,26 @@ macro_rules! forward_display {
     };
 }
 forward_display!(Display);
-forward_display!(LowerHex);
-forward_display!(UpperHex);
-forward_display!(Binary);
-forward_display!(Octal);
+
+// The radix formats of a negative i64 print its two's complement bit pattern while BigInt prints
+// sign and magnitude; go through BigInt for negative numbers so that the text depends on the value
+// only, not on the representation.
+macro_rules! forward_radix_display {
+    ($impl:ident) => {
+        impl fmt::$impl for NInt {
+            fn fmt(&self, formatter: &mut fmt::Formatter) -> fmt::Result {
+                match self {
+                    NInt::Small(n) if *n >= 0 => fmt::$impl::fmt(n, formatter),
+                    _ => fmt::$impl::fmt(&*self.to_bigint(), formatter),
+                }
+            }
+        }
+    };
+}
+forward_radix_display!(LowerHex);
+forward_radix_display!(UpperHex);
+forward_radix_display!(Binary);
+forward_radix_display!(Octal);
 
 macro_rules! impl_binary {
     ($imp:ident, $method:ident, $func:expr) => {
